@@ -1,4 +1,6 @@
-import LoraVerif.Props.TieA.C13Sx127
+import LoraVerif.Lemmas.PhyTieA127
+import LoraVerif.Gen.PhyEnc1276
+import LoraVerif.Gen.PhyEnc1272
 import LoraVerif.Model.PhyArith
 /-!
 # C17, tie A for the SX127x TX-power arithmetic (builder P)
